@@ -166,6 +166,14 @@ func (t *Term) IntVal() (int64, bool) {
 	return 0, false
 }
 
+// StrVal: the value of a string literal.
+func (t *Term) StrVal() (string, bool) {
+	if t.Op == "lit" && t.S == SStr {
+		return t.Name, true
+	}
+	return "", false
+}
+
 func App(fn string, s Sort, args ...*Term) *Term { return mk("app", fn, s, args...) }
 
 func Not(a *Term) *Term {
